@@ -121,8 +121,16 @@ def noise_messages(inst, rng, step: int):
     """message objects a console may interleave before the answer of handshake step `step`"""
     ms = handshake_messages(inst)
     out = []
+    c = inst.m["c"]
     for _ in range(rng.choice([0, 1, 1, 2, 3])):
-        k = rng.randrange(4)
+        k = rng.randrange(5)
+        if k == 4:
+            if inst.gen == 5:
+                # the console's echo of ANOTHER client's request (not addressed to us): not an answer
+                req = rng.choice([c.ext.ExtendedMessage(c.names.ZoneNamesRequest("ALL")), c.c0.ControlStatusMessage(c.zs.ZoneStatusRequest()),
+                                  c.c0.ControlStatusMessage(c.acs.AcStatusRequest())])
+                out.append(("msg", rng.choice([0xB1, 0x80, 0x00]), req))
+            continue
         if k == 0 and step > 0:
             out.append(("msg", 0xB0, ms[rng.randrange(step)]))                    # duplicate of an earlier answer
         elif k == 1:
